@@ -13,7 +13,7 @@ import (
 
 // Val is one attribute value of an input record.
 type Val struct {
-	K string // "" = attribute absent, "s" string, "i" int, "b" bool
+	K string // "" = attribute absent, "s" string, "i" int, "b" bool, "f" a float64 whose value is the integer I (|I| <= 2^53)
 	S string `json:",omitempty"`
 	I int64  `json:",omitempty"`
 	B bool   `json:",omitempty"`
@@ -27,7 +27,7 @@ func (v Val) render() string {
 	switch v.K {
 	case "s":
 		return v.S
-	case "i":
+	case "i", "f":
 		return strconv.FormatInt(v.I, 10)
 	case "b":
 		return strconv.FormatBool(v.B)
@@ -41,10 +41,24 @@ func (v Val) goValue() any {
 		return v.S
 	case "i":
 		return int(v.I)
+	case "f":
+		return float64(v.I)
 	case "b":
 		return v.B
 	}
 	return nil
+}
+
+// jsonValue is what is written in a title line: an integral float is spelt as
+// a float ("1e+06" or "1000000.0"), everything else as encoding/json does.
+func (v Val) jsonValue() any {
+	if v.K == "f" {
+		if v.I%2 == 0 {
+			return json.Number(strconv.FormatFloat(float64(v.I), 'e', -1, 64))
+		}
+		return json.Number(strconv.FormatInt(v.I, 10) + ".0")
+	}
+	return v.goValue()
 }
 
 // Merged is a merged_<k> map already carried by an input record (the record is
